@@ -27,7 +27,7 @@ Inductive tpc :=
 | TNext (db : N)                               (* draining since db: nextItem *)
 | TCollect (db : N) (items : list (N * N))     (* collectBatch *)
 | THandler (db rb : N) (items : list (N * N))  (* inside the handler since rb *)
-| TFinish (db : N).                            (* queue seen empty under shard.mu; finishShardDrain pending *)
+| TFinish (db te : N).                         (* queue seen empty under shard.mu at te (ghost stamp); finishShardDrain pending *)
 
 Record shard := Sh { sh_queue : list (N * N); sh_tok : tpc }.
 
@@ -108,7 +108,7 @@ Definition m_tok_step (s : mstate) (k : nat) (c : tch) : mstate :=
   | TNext db =>
       match sh_queue sh with
       | it :: r => m_set_sh s k (Sh r (TCollect db [it]))
-      | [] => m_set_sh s k (Sh [] (TFinish db))                      (* len(queue)==0 under shard.mu; deferred observeWorker *)
+      | [] => m_set_sh s k (Sh [] (TFinish db (m_now s)))                      (* len(queue)==0 under shard.mu; deferred observeWorker *)
       end
   | TCollect db items =>
       match c with
@@ -124,7 +124,7 @@ Definition m_tok_step (s : mstate) (k : nat) (c : tch) : mstate :=
       let s' := m_set_sh s k (Sh (sh_queue sh) (TNext db)) in
       MSt (m_now s') (m_closed s') (m_shclosed s') (m_shards s') (m_pcs s') (m_close s') (m_cb s') (m_subs s')
           (mk_runs_sh items (N.of_nat k) rb (m_now s) 0 ++ m_runs s') (m_drains s') (m_clos s')
-  | TFinish db =>
+  | TFinish db _ =>
       (* finishShardDrain: scheduled = false; needsSchedule := len(queue) > 0 && !shard.closed && !parent.closed *)
       let needs := negb (match sh_queue sh with [] => true | _ => false end) && negb (m_shclosed s) && negb (m_closed s) in
       let s' := m_set_sh s k (Sh (sh_queue sh) (if needs then TSched else TNone)) in
